@@ -13,13 +13,36 @@ RULE = ("seeded blackbox-free lint-clean circuits (trees, reconvergent cones, sh
         "gates of more than two inputs); distinct = canonical net + flag; non-trivial = at least two supergates or one "
         "supergate containing a reconvergence")
 PROBES = ["reconvergence_inside_supergate", "shared_logic_between_outputs", "chain_of_single_dominators",
-          "supercircuit", "wide_gates", "supergates>=3", "input_is_output", "const"]
-ASSUMPTIONS = ["<= 6 inputs, <= 14 gates", "for circuits with gates of more than two inputs the internal wiring is "
+          "supercircuit", "wide_gates", "supergates>=3", "supergates>=11", "input_is_output", "const"]
+ASSUMPTIONS = ["<= 6 inputs and <= 20 gates for random shapes; ladders of 9-13 nested two-input gates with up to 14 inputs", "for circuits with gates of more than two inputs the internal wiring is "
                "judged functionally (the union of the supergates must be equivalent to the argument and have fan-in <= 2), "
                "because the fan-in-limited circuit is an internal artifact"]
 
 
+def gen_ladder(rng):
+    """A deep chain of supergates: g1 = op(x0, x1), g_k = op(g_{k-1}, x_k) (nesting depth, not width)."""
+    n = rng.randint(9, 13)
+    nodes = {}
+    for i in range(n + 1):
+        nodes[f"x{i}"] = ["input", [], False]
+    prev = "x0"
+    for k in range(1, n + 1):
+        t = rng.choice(("and", "or", "nand", "nor", "xor", "xnor"))
+        nodes[f"g{k}"] = [t, [prev, f"x{k}"], rng.random() < 0.1]
+        prev = f"g{k}"
+    nodes[prev][2] = True
+    if rng.random() < 0.5:
+        items = list(nodes.items())
+        rng.shuffle(items)
+        nodes = dict(items)
+    return {"name": "ladder", "nodes": nodes, "bbs": {}}
+
+
 def gen(rng, tier):
+    if rng.random() < 0.06:
+        net = gen_ladder(rng)
+        sc = len(ref.outputs(net)) == 1 and rng.random() < 0.4
+        return {"net": net, "supercircuit": sc, "peer": {"seed": rng.getrandbits(32)}}
     wide = rng.random() < 0.2
     shape = rng.choice(("tree", "reconv", "reconv", "multi"))
     big = tier == "thorough" and rng.random() < 0.3
@@ -56,7 +79,7 @@ def run(case, ctx):
     if case["supercircuit"] and len(outs) != 1:
         raise Skip("supercircuit needs one output")
     ins = ref.inputs(net)
-    if len(ins) > 8:
+    if len(ins) > 15:
         raise Skip("bounds")
     feats = G.features(net)
     if "input_is_output" in feats:
@@ -93,6 +116,8 @@ def run(case, ctx):
     ctx.log("supergates", [sorted(s["nodes"]) for s in snaps], [state_digest(s) for s in sgs])
     if len(sgs) >= 3:
         ctx.probe("supergates>=3")
+    if len(sgs) >= 11:
+        ctx.probe("supergates>=11")
     # (a) one output each
     souts = []
     for s in snaps:
